@@ -40,7 +40,14 @@ def rule_pure_self(ctx, R):
                 if tj["k"] == "ref" and tj["to"].get("path") == v.A:
                     ctx.check(not tj["mut"], "PURE-SELF", I, "iterator-holds-shared-ref", lib.adts[I]["span"],
                               "search iterators must hold `&A`; %s.%s is %s" % (I, fd["name"], fd["ty"]))
-        # Iterator::next of a search iterator takes &mut self of the ITERATOR only – by typing it cannot reach &mut A
+        # who-may-write: the automaton's fields are set once, by the builder's literal or the image reader
+        for fd in lib.adts[v.A]["variants"][0]["fields"]:
+            for wb, bi, kind, payload in lib.field_writes().get((v.A, fd["name"]), []):
+                if wb.j.get("impl_trait") in ("core::clone::Clone",) or "::tests::" in wb.path:
+                    continue
+                okw = kind == "literal" and (wb is v.build_with_values or wb.name == "deserialize_unchecked")
+                ctx.check(okw, "PURE-SELF", wb, "automaton-field-set-once:" + fd["name"], wb.loc(bi),
+                          "%s.%s may only be set by the builder's literal / deserialize_unchecked; written by %s (%s)" % (v.A, fd["name"], wb.key, kind))
 
 
 def rule_pure_freeze(ctx, R, NR=None):
@@ -243,6 +250,19 @@ def rule_mapper(ctx, R, rules=None):
             cr = S.fv.closure_ret(cl[1]) if cl[0] == "closure" else None
             okf = cr is not None and cr[0] == "bin" and cr[1] == "Ne" and (is_const(cr[2], 0) or is_const(cr[3], 0))
         ctx.check(okf, "B-MAP", nb, "keeps-all-occurring", nb.span, "every code point with a non-zero count must be mapped (filter f != 0)")
+    if want("B-MAP"):
+        # who-may-write: the mapper's table and alphabet size are fixed by CodeMapper::new (and the image reader);
+        # nothing renumbers or shrinks them afterwards, so I5 (every code < alphabet_size <= block length) is preserved
+        for fname in ("table", "alphabet_size"):
+            for wb, bi, kind, payload in lib.field_writes().get((M, fname), []):
+                if wb.j.get("impl_trait") in ("core::clone::Clone", "core::default::Default"):
+                    continue
+                okw = kind == "literal" and (wb is nb or (wb.j.get("impl_adt") == M and wb.name == "deserialize_from_slice"))
+                ctx.check(okw, "B-MAP", wb, "mapper-immutable:" + fname, wb.loc(bi),
+                          "CodeMapper.%s may only be set by CodeMapper::new / the image reader (no later renumbering); written by %s (%s)" % (fname, wb.key, kind))
+        for f in lib.j["fns"]:
+            if f.get("impl_adt") == M and f["inputs"] and f["inputs"][0]["k"] == "ref" and f["inputs"][0]["mut"]:
+                ctx.bad("B-MAP", f["path"], "mapper-no-mut-methods:" + f["name"], f["span"], "CodeMapper must have no `&mut self` methods")
     if want("CW-MAP"):
         S = Sites(lib, gb)
         gets = S.keyed(lambda k: k == "core::slice::get")
